@@ -19,20 +19,18 @@ class DjangoReceiverOnTopTransformer(LibcstResultTransformer, NameResolutionMixi
     ) -> Union[
         cst.BaseStatement, cst.FlattenSentinel[cst.BaseStatement], cst.RemovalSentinel
     ]:
-        maybe_receiver_with_index = None
-        for i, decorator in enumerate(original_node.decorators):
-            if self.find_base_name(decorator.decorator) == "django.dispatch.receiver":
-                maybe_receiver_with_index = (i, decorator)
+        receivers = [
+            decorator
+            for decorator in original_node.decorators
+            if self.find_base_name(decorator.decorator) == "django.dispatch.receiver"
+        ]
 
-        if maybe_receiver_with_index and self.node_is_selected(
-            maybe_receiver_with_index[1]
-        ):
-            index, receiver = maybe_receiver_with_index
-            if index > 0:
-                new_decorators = [receiver]
-                new_decorators.extend(
-                    d for d in original_node.decorators if d != receiver
-                )
+        if receivers and self.node_is_selected(receivers[-1]):
+            # all receivers go first, in their order: moving one at a time never settles
+            new_decorators = receivers + [
+                d for d in original_node.decorators if d not in receivers
+            ]
+            if new_decorators != list(original_node.decorators):
                 for decorator in new_decorators:
                     self.report_change(decorator)
                 return updated_node.with_changes(decorators=new_decorators)
